@@ -295,7 +295,7 @@ impl Updater {
     #[must_use]
     pub fn received_firmware_segments(&self) -> u32 {
         (self.reconstruction_state.done.count_ones() + self.reconstruction_state.used.count_ones())
-            as u32
+            .min(self.reconstruction_state.n) as u32
     }
 }
 
